@@ -613,16 +613,17 @@ mod pc_stream {
     /// symbolic addresses: index → (ip code, symbolic port, 127.0.0.x host byte)
     /// S signaled endpoint, A, C (same IP as A), B (same port as C), T second signaled endpoint,
     /// X (same port as S, other IP: the only kind of source the STUN rewrite accepts), Y same for T
-    const SYM: [(u8, u16, u8); 7] = [(9, 5009, 9), (1, 5001, 1), (1, 5002, 1), (2, 5002, 2), (4, 5004, 4), (3, 5009, 3), (3, 5004, 3)];
-    const NAMES: [&str; 7] = ["S", "A", "C", "B", "T", "X", "Y"];
+    const SYM: [(u8, u16, u8); 9] = [(9, 5009, 9), (1, 5001, 1), (1, 5002, 1), (2, 5002, 2), (4, 5004, 4), (3, 5009, 3), (3, 5004, 3), (9, 5010, 9), (4, 5005, 4)];
+    /// R / U: the RTCP ports (RTP port + 1) of S / T, used by the scenarios without rtcp-mux
+    const NAMES: [&str; 9] = ["S", "A", "C", "B", "T", "X", "Y", "R", "U"];
 
     #[derive(Clone, Debug)]
     pub enum Step { Pkt(usize, Vec<u8>), Answer(usize), Reinvite(usize), Stun(usize) }
     #[derive(Clone, Debug)]
-    pub struct PcCase { pub maxp: u8, pub ssrc: bool, pub steps: Vec<Step> }
+    pub struct PcCase { pub maxp: u8, pub ssrc: bool, pub mux: bool, pub steps: Vec<Step> }
 
     pub fn case_text(c: &PcCase) -> String {
-        format!("pc {},{} {}", c.maxp, c.ssrc as u8, c.steps.iter().map(|s| match s {
+        format!("pc {},{},{} {}", c.maxp, c.ssrc as u8, c.mux as u8, c.steps.iter().map(|s| match s {
             Step::Pkt(i, b) => format!("p,{},{}", NAMES[*i], hex(b)),
             Step::Answer(i) => format!("answer,{}", NAMES[*i]),
             Step::Reinvite(i) => format!("reinvite,{}", NAMES[*i]),
@@ -635,7 +636,7 @@ mod pc_stream {
         let steps = it.map(|t| { let f: Vec<&str> = t.split(',').collect(); match f[0] {
             "p" => Step::Pkt(idx(f[1]), crate::unhex(f[2])), "answer" => Step::Answer(idx(f[1])),
             "reinvite" => Step::Reinvite(idx(f[1])), _ => Step::Stun(idx(f[1])) } }).collect();
-        PcCase { maxp: h[0].parse().unwrap(), ssrc: h[1] == "1", steps }
+        PcCase { maxp: h[0].parse().unwrap(), ssrc: h[1] == "1", mux: h.get(2) != Some(&"0"), steps }
     }
 
     struct Net { socks: Vec<UdpSocket> }
@@ -651,7 +652,9 @@ mod pc_stream {
                 let Some(t) = bind(4, 0).await else { continue };
                 let Some(x) = bind(3, s.local_addr().unwrap().port()).await else { continue };
                 let Some(y) = bind(3, t.local_addr().unwrap().port()).await else { continue };
-                return Some(Net { socks: vec![s, a, c, b, t, x, y] });
+                let Some(r) = bind(9, s.local_addr().unwrap().port().wrapping_add(1)).await else { continue };
+                let Some(u) = bind(4, t.local_addr().unwrap().port().wrapping_add(1)).await else { continue };
+                return Some(Net { socks: vec![s, a, c, b, t, x, y, r, u] });
             }
             None
         }
@@ -675,12 +678,12 @@ mod pc_stream {
         }
     }
 
-    fn sdp(addr: SocketAddr, ver: u32, ssrc: bool) -> String {
-        format!("v=0\r\no=- 1 {ver} IN IP4 {ip}\r\ns=-\r\nt=0 0\r\nc=IN IP4 {ip}\r\nm=audio {port} RTP/AVP 0\r\na=rtpmap:0 PCMU/8000\r\na=rtcp-mux\r\na=sendrecv\r\n{s}",
-            ip = addr.ip(), port = addr.port(), s = if ssrc { format!("a=ssrc:{} cname:verif\r\n", SSRC) } else { String::new() })
+    fn sdp(addr: SocketAddr, ver: u32, ssrc: bool, mux: bool) -> String {
+        format!("v=0\r\no=- 1 {ver} IN IP4 {ip}\r\ns=-\r\nt=0 0\r\nc=IN IP4 {ip}\r\nm=audio {port} RTP/AVP 0\r\na=rtpmap:0 PCMU/8000\r\n{mx}a=sendrecv\r\n{s}",
+            mx = if mux { "a=rtcp-mux\r\n" } else { "" }, ip = addr.ip(), port = addr.port(), s = if ssrc { format!("a=ssrc:{} cname:verif\r\n", SSRC) } else { String::new() })
     }
 
-    pub struct PcOut { pub model_ops: Vec<String>, pub obs: Vec<String>, pub fails: Vec<(String, String)>, pub stun_rewrites: u64, pub stun_moved_open: u64, pub hidden: Vec<String> }
+    pub struct PcOut { pub model_ops: Vec<String>, pub obs: Vec<String>, pub fails: Vec<(String, String)>, pub stun_rewrites: u64, pub stun_moved_open: u64, pub split_rtcp: u64, pub hidden: Vec<String> }
 
     pub async fn exec(c: &PcCase) -> Result<PcOut, String> {
         let net = Net::new().await.ok_or("could not bind the loopback sockets")?;
@@ -695,14 +698,14 @@ mod pc_stream {
         let offer = pc.create_offer().await.map_err(|e| format!("create_offer: {e:?}"))?;
         pc.set_local_description(offer).map_err(|e| format!("set_local: {e:?}"))?;
         let local = pc.ice_transport().local_candidates().into_iter().find(|c| c.component == 1).ok_or("no local candidate")?.address;
-        let pr = SessionDescription::parse(SdpType::Pranswer, &sdp(net.real(0), 1, c.ssrc)).map_err(|e| format!("sdp: {e:?}"))?;
+        let pr = SessionDescription::parse(SdpType::Pranswer, &sdp(net.real(0), 1, c.ssrc, c.mux)).map_err(|e| format!("sdp: {e:?}"))?;
         pc.set_remote_description(pr).await.map_err(|e| format!("set_remote(pranswer): {e:?}"))?;
         let mut transport = None;
         for _ in 0..500 { if let Some(t) = pc.verif_lc_rtp_transport() { transport = Some(t); break; } tokio::time::sleep(Duration::from_millis(2)).await; }
         let conn = transport.ok_or("no rtp transport after pranswer")?.ice_conn();
         tokio::time::sleep(Duration::from_millis(20)).await;
         let observe = |net: &Net| { let r = net.sym(*conn.remote_addr.read()); format!("{}:{}/{}", r.0, r.1, conn.rtp_latched.load(Ordering::Relaxed) as u8) };
-        let mut out = PcOut { model_ops: vec![format!("init,{},{},{},0", SYM[0].0, SYM[0].1, c.maxp), "en".into(), format!("sg,{},{}", SYM[0].0, SYM[0].1)], obs: vec![], fails: vec![], stun_rewrites: 0, stun_moved_open: 0, hidden: vec![] };
+        let mut out = PcOut { model_ops: vec![format!("init,{},{},{},0", SYM[0].0, SYM[0].1, c.maxp), "en".into(), format!("sg,{},{}", SYM[0].0, SYM[0].1)], obs: vec![], fails: vec![], stun_rewrites: 0, stun_moved_open: 0, split_rtcp: 0, hidden: vec![] };
         { let (on, exp, mx, pr) = conn.verif_latch_state(); out.hidden.push(format!("on={on} expected={exp} maxp={mx} prob={:?}", pr.map(|p| (p.0, p.1, p.2.len())))); }
         if c.ssrc { out.model_ops.push(format!("ss,{SSRC}")); }
         out.model_ops.push("|".into());
@@ -721,14 +724,14 @@ mod pc_stream {
                     out.model_ops.push(format!("p,{},{},{}", SYM[*i].0, SYM[*i].1, hex(b)));
                 }
                 Step::Answer(i) => {
-                    let d = SessionDescription::parse(SdpType::Answer, &sdp(net.real(*i), ver, c.ssrc)).map_err(|e| format!("sdp: {e:?}"))?; ver += 1;
+                    let d = SessionDescription::parse(SdpType::Answer, &sdp(net.real(*i), ver, c.ssrc, c.mux)).map_err(|e| format!("sdp: {e:?}"))?; ver += 1;
                     pc.set_remote_description(d).await.map_err(|e| format!("set_remote(answer): {e:?}"))?;
                     // an SDP whose media parameters are unchanged is not re-applied (`set_remote_description` shortcut)
                     if *i != signaled { out.model_ops.push(format!("sg,{},{}", SYM[*i].0, SYM[*i].1)); pair_remote = *i; signaled = *i; }
                     else { out.model_ops.push(format!("mp,{}", c.maxp)); }
                 }
                 Step::Reinvite(i) => {
-                    let d = SessionDescription::parse(SdpType::Offer, &sdp(net.real(*i), ver, c.ssrc)).map_err(|e| format!("sdp: {e:?}"))?; ver += 1;
+                    let d = SessionDescription::parse(SdpType::Offer, &sdp(net.real(*i), ver, c.ssrc, c.mux)).map_err(|e| format!("sdp: {e:?}"))?; ver += 1;
                     pc.set_remote_description(d).await.map_err(|e| format!("set_remote(reinvite): {e:?}"))?;
                     let a = pc.create_answer().await.map_err(|e| format!("create_answer: {e:?}"))?;
                     pc.set_local_description(a).map_err(|e| format!("set_local(answer): {e:?}"))?;
@@ -754,16 +757,25 @@ mod pc_stream {
             let dest = *conn.remote_addr.read();
             if dest.port() != 0 {
                 net.drain().await;
-                let want = net.socks.iter().position(|s| s.local_addr().unwrap() == dest);
+                let want_rtp = net.socks.iter().position(|s| s.local_addr().unwrap() == dest);
+                let rtcp_dest = conn.remote_rtcp_addr.read().unwrap_or(dest);
+                let want_rtcp = net.socks.iter().position(|s| s.local_addr().unwrap() == rtcp_dest);
+                if rtcp_dest != dest { out.split_rtcp += 1; }
                 for (name, tag) in [("send", &b"\x80\x60send"[..]), ("try_send", &b"\x80\x60trys"[..]), ("send_rtcp", &b"\x80\xc9rtcp"[..])] {
                     let r = match name { "send" => conn.send(tag).await.map(|_| ()), "try_send" => conn.try_send(tag).map(|_| ()), _ => conn.send_rtcp(tag).await.map(|_| ()) };
                     if let Err(e) = r { out.fails.push((format!("pc:send-path:{name}-failed"), format!("step {k}: {e}"))); continue; }
                     let got = net.who_gets(tag).await;
+                    let want = if name == "send_rtcp" { want_rtcp } else { want_rtp };
                     if got != want { out.fails.push((format!("pc:send-path:{name}-goes-elsewhere"),
                         format!("step {k}: destination field {:?}, datagram arrived at {:?}", net.sym(dest), got.map(|g| NAMES[g])))); }
                 }
             }
-            if matches!(st, Step::Stun(_)) && *conn.remote_addr.read() != before { out.stun_moved_open += 1; }
+            if matches!(st, Step::Stun(_)) && *conn.remote_addr.read() != before {
+                out.stun_moved_open += 1;
+                if out.model_ops.last().map(|t| t.starts_with("mp,")).unwrap_or(false) {
+                    out.fails.push(("pc:move:stun-request-not-from-the-pair-port-moved-destination".into(), format!("step {k}: {:?} -> {:?}", net.sym(before), net.sym(*conn.remote_addr.read()))));
+                }
+            }
             { let (on, exp, mx, pr) = conn.verif_latch_state(); out.hidden.push(format!("on={on} expected={exp} maxp={mx} prob={:?}", pr.map(|p| (p.0, p.1, p.2.len())))); }
         }
         pc.close();
@@ -782,6 +794,7 @@ mod pc_stream {
                 // visible in the evidence: an unauthenticated RTP-mode STUN request (same port, other IP) moved the
                 // destination while the latch was open — a selected-pair update in the property's alphabet
                 run.count_n("pc_stun_request_moved_open_destination", o.stun_moved_open);
+                run.count_n("pc_send_probes_with_separate_rtcp_destination", o.split_rtcp);
                 // property oracles on the observations: the same `oracles` as the bare-IceConn stream,
                 // applied to the op list the scenario stands for (public fields only)
                 let ops: Vec<String> = o.model_ops.iter().filter(|t| *t != "|").cloned().collect();
@@ -810,19 +823,19 @@ mod pc_stream {
         let rtcp_ = |i: usize| Step::Pkt(i, rtcp());
         let mut v = vec![
             // commit by marker, then everything that must not move the destination
-            PcCase { maxp: 6, ssrc: true, steps: vec![p(1, true, 10), p(2, true, 1), rtcp_(3), wrong(3), Step::Stun(5), Step::Answer(0), Step::Stun(5), Step::Stun(1), p(3, true, 2)] },
+            PcCase { maxp: 6, ssrc: true, mux: true, steps: vec![p(1, true, 10), p(2, true, 1), rtcp_(3), wrong(3), Step::Stun(5), Step::Answer(0), Step::Stun(5), Step::Stun(1), p(3, true, 2)] },
             // re-INVITE to a new endpoint resets and retargets; STUN from the new pair's port retargets the open latch
-            PcCase { maxp: 6, ssrc: true, steps: vec![p(1, true, 10), Step::Answer(0), Step::Reinvite(4), rtcp_(2), Step::Stun(5), Step::Stun(6), wrong(1), p(2, true, 3), Step::Stun(5), Step::Reinvite(4)] },
+            PcCase { maxp: 6, ssrc: true, mux: true, steps: vec![p(1, true, 10), Step::Answer(0), Step::Reinvite(4), rtcp_(2), Step::Stun(5), Step::Stun(6), wrong(1), p(2, true, 3), Step::Stun(5), Step::Reinvite(4)] },
             // open latch: pair updates do move it, wrong-SSRC / RTCP / non-matching STUN do not
-            PcCase { maxp: 6, ssrc: true, steps: vec![rtcp_(1), wrong(2), Step::Stun(1), Step::Stun(5), p(1, false, 10), Step::Answer(4), Step::Stun(6), p(2, false, 20), p(2, false, 21), p(2, false, 22)] },
+            PcCase { maxp: 6, ssrc: true, mux: true, steps: vec![rtcp_(1), wrong(2), Step::Stun(1), Step::Stun(5), p(1, false, 10), Step::Answer(4), Step::Stun(6), p(2, false, 20), p(2, false, 21), p(2, false, 22)] },
             // changed final answer resets the latch and retargets
-            PcCase { maxp: 3, ssrc: true, steps: vec![p(1, true, 10), Step::Answer(4), rtcp_(2), p(3, false, 5), p(2, false, 9), p(3, false, 6)] },
+            PcCase { maxp: 3, ssrc: true, mux: false, steps: vec![p(1, true, 10), Step::Answer(4), rtcp_(2), p(3, false, 5), p(2, false, 9), p(3, false, 6)] },
             // same final answer keeps the latched NAT address
-            PcCase { maxp: 3, ssrc: false, steps: vec![p(1, true, 10), Step::Answer(0), p(2, true, 1), Step::Stun(5)] },
+            PcCase { maxp: 3, ssrc: false, mux: true, steps: vec![p(1, true, 10), Step::Answer(0), p(2, true, 1), Step::Stun(5)] },
             // immediate-latch mode, no SSRC known
-            PcCase { maxp: 0, ssrc: false, steps: vec![rtcp_(2), p(2, false, 1), p(1, false, 2), Step::Answer(4), Step::Stun(6), Step::Reinvite(0), p(3, false, 9)] },
+            PcCase { maxp: 0, ssrc: false, mux: false, steps: vec![rtcp_(2), p(2, false, 1), p(1, false, 2), Step::Answer(4), Step::Stun(6), Step::Reinvite(0), p(3, false, 9)] },
             // rule competition through the real sockets (window 6)
-            PcCase { maxp: 6, ssrc: true, steps: vec![p(3, false, 1), p(1, false, 100), p(3, false, 10), p(1, false, 101), p(3, false, 20), p(1, false, 102), p(2, true, 0)] },
+            PcCase { maxp: 6, ssrc: true, mux: true, steps: vec![p(3, false, 1), p(1, false, 100), p(3, false, 10), p(1, false, 101), p(3, false, 20), p(1, false, 102), p(2, true, 0)] },
         ];
         let mut rng = Rng::new(args.seed ^ 0x18);
         let n = if args.tier_thorough { 120 } else { 14 };
@@ -838,7 +851,7 @@ mod pc_stream {
                     else if answered { Step::Reinvite(*rng.pick(&[0usize, 4])) }
                     else { answered = true; Step::Answer(*rng.pick(&[0usize, 4])) });
             }
-            v.push(PcCase { maxp: *rng.pick(&[0u8, 2, 3, 6]), ssrc: rng.chance(2, 3), steps });
+            v.push(PcCase { maxp: *rng.pick(&[0u8, 2, 3, 6]), ssrc: rng.chance(2, 3), mux: rng.chance(1, 2), steps });
         }
         v
     }
